@@ -11,6 +11,9 @@
 #include <algorithm>
 
 int g_result_fd = 1;
+extern "C" int get_number_of_peers(void) __attribute__((weak));
+typedef int (*peers_fn)(void);
+static peers_fn get_number_of_peers_fn() { return get_number_of_peers; }
 
 // ------------------------------------------------------------------ JSON (de)serialisation
 JV Op::to_json() const {
@@ -114,7 +117,7 @@ void World::exec_op(const Op &op) {
 		if (cc.transport == "ws" && !op.a.getb("nohs")) {
 			std::string key = op.a.gets("key", "dGhlIHNhbXBsZSBub25jZQ==");
 			std::string hs = op.a.has("hshex") ? hexdec(op.a.gets("hshex")) : ws_handshake(plan.hdr.gets("target", "/api/jet/"), key, op.a.gets("proto", "jet"), op.a.gets("extra"));
-			if (!op.a.has("hshex")) cc.policy.set("wskey", JV::str(key));
+			if (!op.a.has("hshex")) cc.policy.put("wskey", JV::str(key));
 			send_from_client(cc, hs, op.a.get("seg"), (uint64_t)op.a.getd("gap", 0), op.uid);
 		}
 		return;
@@ -185,6 +188,16 @@ void World::exec_op(const Op &op) {
 // ------------------------------------------------------------------ quiescent points and end-of-plan phases
 void World::quiescent_point() {
 	if (!started) return;
+	if (get_number_of_peers_fn()) {
+		int open = 0; for (auto &c : clients) if (c.accepted && !c.daemon_closed) open++;
+		int np = get_number_of_peers_fn()();
+		if (np > base_peers + open) violation(plan.hdr.gets("baseprop", "C07"), "orphan-peer", "the daemon counts " + std::to_string(np) + " peers while only " + std::to_string(open) + " connections are open");
+	}
+	for (auto &c : clients) {
+		if (c.policy.gets("expect_http") == "reject" && c.hs_sent && c.accepted && !c.daemon_closed && !c.http_err_seen)
+			violation("C13", "invalid-request-not-answered", "a complete request that is not a valid upgrade (" + c.policy.gets("defect") + ") was neither answered with an error status nor closed");
+		if (c.policy.getb("may_process_frag") && c.accepted && !c.daemon_closed && !c.client_closed && c.space < 0 && !res.inconclusive) { res.inconclusive = true; res.inconclusive_why = "daemon accepted a fragmented data message (reassembly is not modelled)"; finish(0); bail(); }
+	}
 	if (mode == "exact") {
 		flush_pending();
 		check_queues_empty("at a quiescent point of the event loop");
@@ -356,6 +369,7 @@ void World::setup_from_header() {
 	canary_enabled = h.getb("canary", true);
 	end_mode = h.gets("end", "close") == "sigterm" ? 1 : 0;
 	batch_shuffle_p = h.getd("shuffle", 0.0);
+	wsstrict = h.getb("wsstrict");
 	step_cap = (uint64_t)h.getd("step_cap", 200000);
 	const JV *af = h.get("allocfail"); if (af && af->t == JV::Arr) for (auto &x : af->a) g_arena.fail_at.insert((uint64_t)x.d);
 	const JV *te = h.get("timerfd_errs"); if (te && te->t == JV::Arr) for (auto &x : te->a) g_kernel.timerfd_create_errs.push_back((int)x.d);
